@@ -296,14 +296,70 @@ impl StorageFilterCondition for RejectKeys {
     }
 }
 
+/// Lock probe shared with the user callbacks of a hybrid cache under test (C16): weighter, event listener, admission
+/// and reinsertion filter conditions ask it whether a memory shard lock, an in-flight table lock or a write-queue table
+/// lock is held. All foyer tasks run on the harness thread, so a held lock is held by the caller of the callback.
+#[derive(Default)]
+pub struct LockProbe {
+    cache: Mutex<Option<Cache>>,
+    pub violations: Mutex<Vec<String>>,
+    pub calls: AtomicU64,
+    pub kinds: Mutex<std::collections::BTreeSet<&'static str>>,
+}
+
+impl std::fmt::Debug for LockProbe {
+    fn fmt(&self, f: &mut std::fmt::Formatter<'_>) -> std::fmt::Result {
+        write!(f, "LockProbe")
+    }
+}
+
+impl LockProbe {
+    pub fn check(&self, who: &'static str) {
+        self.calls.fetch_add(1, Ordering::Relaxed);
+        self.kinds.lock().insert(who);
+        let Some(g) = self.cache.try_lock() else { return };
+        if let Some(c) = g.as_ref() {
+            let mem = c.memory().verif_locked_shards();
+            let keeper = c.storage().verif_keeper_locked_shards();
+            if mem > 0 || keeper > 0 {
+                self.violations.lock().push(format!(
+                    "{who} ran while {mem} memory shard / in-flight table lock(s) and {keeper} write-queue table lock(s) were held by the calling thread"
+                ));
+            }
+        }
+    }
+}
+
+thread_local! {
+    /// the next HybSim constructed on this thread takes this probe (keeps the constructors' signatures)
+    static PROBE_NEXT: std::cell::RefCell<Option<Arc<LockProbe>>> = const { std::cell::RefCell::new(None) };
+}
+
+pub fn probe_next_sim(p: Arc<LockProbe>) {
+    PROBE_NEXT.with(|x| *x.borrow_mut() = Some(p));
+}
+
+struct ProbeListener(Arc<LockProbe>);
+impl foyer::EventListener for ProbeListener {
+    type Key = u64;
+    type Value = Vec<u8>;
+    fn on_leave(&self, _reason: foyer::Event, _key: &u64, _value: &Vec<u8>) {
+        self.0.check("event-listener");
+    }
+}
+
 /// Admission condition driven by the history (`HOp::Admission`): admit everything / reject everything.
 #[derive(Debug)]
 struct AdmitSwitch {
     admit: Arc<std::sync::atomic::AtomicBool>,
+    probe: Option<Arc<LockProbe>>,
 }
 
 impl StorageFilterCondition for AdmitSwitch {
     fn filter(&self, _: &Arc<foyer::Statistics>, _: u64, _: usize) -> StorageFilterResult {
+        if let Some(p) = &self.probe {
+            p.check("admission-filter");
+        }
         if self.admit.load(Ordering::SeqCst) {
             StorageFilterResult::Admit
         } else {
@@ -315,10 +371,14 @@ impl StorageFilterCondition for AdmitSwitch {
 #[derive(Debug)]
 struct AdmitKeys {
     hashes: Vec<u64>,
+    probe: Option<Arc<LockProbe>>,
 }
 
 impl StorageFilterCondition for AdmitKeys {
     fn filter(&self, _: &Arc<foyer::Statistics>, hash: u64, _: usize) -> StorageFilterResult {
+        if let Some(p) = &self.probe {
+            p.check("reinsertion-filter");
+        }
         if self.hashes.contains(&hash) {
             StorageFilterResult::Admit
         } else {
@@ -349,6 +409,8 @@ pub struct HybSim {
     closed: bool,
     /// state of the history-driven admission switch (kept across reopen)
     admit: Arc<std::sync::atomic::AtomicBool>,
+    /// lock probe for user callbacks of the hybrid cache (C16); None = callbacks do not probe
+    pub probe: Option<Arc<LockProbe>>,
 }
 
 fn lookup_out(r: foyer::Result<Option<Entry>>) -> LookupOut {
@@ -398,6 +460,7 @@ impl HybSim {
             log: vec![],
             closed: false,
             admit: Arc::new(std::sync::atomic::AtomicBool::new(true)),
+            probe: PROBE_NEXT.with(|p| p.borrow_mut().take()),
         };
         let ok = sim.open(RecoverMode::Quiet);
         assert!(ok, "harness: initial open of an empty device failed");
@@ -426,6 +489,7 @@ impl HybSim {
             log: vec![],
             closed: false,
             admit: Arc::new(std::sync::atomic::AtomicBool::new(true)),
+            probe: PROBE_NEXT.with(|p| p.borrow_mut().take()),
         };
         let ok = sim.open(mode);
         (sim, ok)
@@ -465,15 +529,19 @@ impl HybSim {
                     hashes: cfg.admission_reject.iter().map(|k| cfg.hash.hash_of(*k as u64)).collect(),
                     calls: Arc::new(AtomicU64::new(0)),
                 })
-                .with_condition(AdmitSwitch { admit: self.admit.clone() }),
+                .with_condition(AdmitSwitch { admit: self.admit.clone(), probe: self.probe.clone() }),
         );
         if !cfg.reinsert.is_empty() {
             engine = engine.with_reinsertion_filter(StorageFilter::new().with_condition(AdmitKeys {
                 hashes: cfg.reinsert.iter().map(|k| cfg.hash.hash_of(*k as u64)).collect(),
+                probe: self.probe.clone(),
             }));
         }
-        let builder = HybridCacheBuilder::new()
-            .with_name("verif")
+        let mut first = HybridCacheBuilder::new().with_name("verif");
+        if let Some(p) = &self.probe {
+            first = first.with_event_listener(Arc::new(ProbeListener(p.clone())));
+        }
+        let builder = first
             .with_policy(if cfg.write_on_insertion {
                 HybridCachePolicy::WriteOnInsertion
             } else {
@@ -485,7 +553,15 @@ impl HybSim {
             .with_shards(cfg.mem_shards)
             .with_eviction_config(cfg.algo.eviction_config())
             .with_hash_builder(SpecHasher::new(cfg.hash.clone()))
-            .with_weighter(|_k: &u64, v: &Vec<u8>| v.len() + 16)
+            .with_weighter({
+                let probe = self.probe.clone();
+                move |_k: &u64, v: &Vec<u8>| {
+                    if let Some(p) = &probe {
+                        p.check("weighter");
+                    }
+                    v.len() + 16
+                }
+            })
             .storage()
             .with_io_engine_config(Box::new(SimIoEngineConfig { disk: self.disk.clone() }) as Box<dyn foyer::IoEngineConfig>)
             .with_engine_config(engine)
@@ -495,12 +571,23 @@ impl HybSim {
         self.disk.set_hold(was_hold);
         match res {
             Ok(cache) => {
+                if let Some(p) = &self.probe {
+                    *p.cache.lock() = Some(cache.clone());
+                }
                 self.cache = Some(cache);
                 self.closed = false;
                 true
             }
             Err(_) => false,
         }
+    }
+
+    /// Drop the cache (and the probe's clone of it first, so that this really is the last handle).
+    fn drop_cache(&mut self) {
+        if let Some(p) = &self.probe {
+            *p.cache.lock() = None;
+        }
+        self.cache = None;
     }
 
     pub fn cache(&self) -> &Cache {
@@ -703,7 +790,7 @@ impl HybSim {
                     self.sync_log();
                     self.disk.abandon_pending();
                     self.handles.clear();
-                    self.cache = None;
+                    self.drop_cache();
                     drop(self.rt.take());
                     self.rt = Some(tokio::runtime::Builder::new_current_thread().build().unwrap());
                     self.disk = SimDisk::from_image(image);
@@ -718,7 +805,7 @@ impl HybSim {
             }
             HOp::ReopenNoClose => {
                 self.handles.clear();
-                self.cache = None;
+                self.drop_cache();
                 resolved.extend(self.drain());
                 self.sync_log();
                 drop(self.rt.take());
@@ -903,7 +990,7 @@ impl HybSim {
                 if hang.is_none() {
                     // drop every handle and the cache, let the remaining tasks finish, then reopen
                     self.handles.clear();
-                    self.cache = None;
+                    self.drop_cache();
                     resolved.extend(self.drain());
                     self.sync_log();
                     // a fresh runtime: every task of the old generation is gone
@@ -1036,7 +1123,7 @@ impl HybSim {
         self.sync_log();
         self.disk.abandon_pending();
         self.handles.clear();
-        self.cache = None;
+        self.drop_cache();
         drop(self.rt.take());
         self.rt = Some(tokio::runtime::Builder::new_current_thread().build().unwrap());
         let hold = self.disk.is_hold();
@@ -1075,7 +1162,7 @@ impl HybSim {
         let _ = self.collect();
         // wind down: drop handles and the cache, drain, drop the runtime
         self.handles.clear();
-        self.cache = None;
+        self.drop_cache();
         self.disk.set_hold(false);
         let _ = self.drain();
         self.sync_log();
